@@ -226,7 +226,9 @@ impl ClosureParamIndex {
             };
             if let hir::Expr::EClosure { params, .. } = hir_table.expr(expr_id) {
                 for param in params {
-                    local_by_ptr.insert(param.astptr, param.name);
+                    // as in `HirResultsIndex`: a pointer is a (kind, range) pair, two files of a
+                    // package can have the same one, and the queried file is lowered first
+                    local_by_ptr.entry(param.astptr).or_insert(param.name);
                 }
             }
         }
